@@ -563,6 +563,48 @@ def r04_6(run):
            slot='cookiefile-regex', message='COOKIEFILE regex no longer matches a quoted string with escapes')
 
 
+def r04_9(run):
+    """authenticate() presents the token it was given: between its argument and the AUTHENTICATE command the token passes only through
+    str->bytes encoding and hex encoding (it is also the raw COOKIE of the COOKIE method: trimming "line endings" cuts one cookie in 128)"""
+    u = U(run, 'authenticate')
+    p = u.params[1]
+    defs = local_defs(u)
+    tainted = set([p])
+    k = 0
+    changed = True
+    while changed:
+        changed = False
+        for nm, ds in defs.items():
+            for d in ds:
+                if len(d) > 1 and isinstance(d[1], ast.AST) and any(isinstance(x, ast.Name) and x.id in tainted for x in ast.walk(d[1])) and nm not in tainted:
+                    tainted.add(nm)
+                    changed = True
+    for n in walk_unit(u):
+        if isinstance(n, (ast.Assign, ast.AugAssign)) and any(t in tainted for t in assigned_targets(n)):
+            v = n.value
+            if not any(isinstance(x, ast.Name) and x.id in tainted for x in ast.walk(v)):
+                continue
+            k += 1
+            ok = True
+            why = ''
+            for x in ast.walk(v):
+                if isinstance(x, ast.Call):
+                    ca = callee_attr(x)
+                    touches = any(isinstance(y, ast.Name) and y.id in tainted for y in ast.walk(x))
+                    if touches and ca not in ('encode', 'b2a_hex', 'hexlify', 'bytes', 'isinstance'):
+                        ok, why = False, src(x)[:50]
+                if isinstance(x, ast.Subscript) and any(isinstance(y, ast.Name) and y.id in tainted for y in ast.walk(x.value)):
+                    ok, why = False, src(x)[:50]
+            run.ob('R04.9', u, n, 'the authentication token is presented as given (encoding only)', ok, slot='token-verbatim:%s' % (assigned_targets(n) or ['?'])[0],
+                   message='authenticate() rewrites the token with %s before sending it: a cookie (or password) that happens to contain those bytes is presented '
+                           'altered and Tor refuses a valid credential' % why)
+    run.floor('R04.9', 'token definitions in authenticate', k, 1)
+    cmds = [c for c in calls_in(u) if callee_attr(c) == 'queue_command']
+    ok = len(cmds) == 1 and cmds[0].args and any(isinstance(x, ast.Name) and x.id in tainted for x in ast.walk(cmds[0].args[0])) \
+        and any(isinstance(c_, ast.Constant) and c_.value in (b'AUTHENTICATE ', 'AUTHENTICATE ') for c_ in ast.walk(cmds[0].args[0]))
+    run.ob('R04.9', u, u.node, 'exactly one AUTHENTICATE command carrying the token', ok, slot='token-sent', message='authenticate() queues %s' % [src(c)[:60] for c in cmds])
+
+
 RULES = [
     ('R04.1', 'call-graph vocabulary: only PROTOCOLINFO/AUTHCHALLENGE/AUTHENTICATE reachable before _bootstrap; _bootstrap attached only behind AUTHENTICATE', r04_1),
     ('R04.2', 'exhaustive path/valuation enumeration of _do_authenticate (advertised methods x cookie read outcome x password function): preference and usability oracle', r04_2),
@@ -571,12 +613,15 @@ RULES = [
     ('R04.5', 'post_bootstrap fired once: callback last in _bootstrap, errback in _auth_failed; dropped chains end in addErrback(_auth_failed)', r04_5),
     ('R04.7', 'every authentication leg chains the bootstrap (must-pass-through between the command and the return of its Deferred)', r04_7),
     ('R04.8', 'falsy passwords (None, empty str/bytes) are refused before AUTHENTICATE (representatives through the test)', r04_8),
+    ('R04.9', 'integrity flow in authenticate(): the token reaches AUTHENTICATE through encode / hex only', r04_9),
     ('R04.6', 'reaching definitions: cookie path = unescape_quoted_string(regex group)', r04_6),
 ]
 
 from ..selftest import M  # noqa: E402
 F = 'txtorcon/torcontrolprotocol.py'
 MUTANTS = [
+    M('token-line-ending-trimmed', F, "        phrase = b2a_hex(passphrase)", "        passphrase = passphrase.rstrip(b'\\r\\n')\n        phrase = b2a_hex(passphrase)", ['R04.9']),
+    M('token-truncated', F, "        phrase = b2a_hex(passphrase)", "        phrase = b2a_hex(passphrase[:32])", ['R04.9']),
     M('password-coroutine-not-awaited', F, "            d.addCallback(maybe_coroutine)\n            d.addCallback(self._do_password_authentication)", "            d.addCallback(self._do_password_authentication)", ['R04.7']),
     M('password-coroutine-awaited-late', F, "            d.addCallback(maybe_coroutine)\n            d.addCallback(self._do_password_authentication)", "            d.addCallback(self._do_password_authentication)\n            d.addCallback(maybe_coroutine)", ['R04.7']),
     M('empty-password-sent', F, "        if not passwd:\n            raise RuntimeError(\"No password available.\")", "        if passwd is None:\n            raise RuntimeError(\"No password available.\")", ['R04.8']),
